@@ -100,7 +100,7 @@ class TransformedHistogramMixin(abc.ABC):
     ):
         if not transformed:
             value = self.transform(value)
-        return super().fill(value=value, weight=weight, **kwargs)  # type: ignore
+        return super().fill(value=value, weight=weight, transformed=True, **kwargs)  # type: ignore
 
     def fill_n(
         self,
